@@ -116,6 +116,7 @@ func run(c *Case) []snapx.Problem {
 				once.Do(func() { held = true; close(reached); <-resume })
 			}
 		})
+		m.ConcurrentCleanup = true
 		go func() { m.Do(o); close(done) }()
 		select {
 		case <-reached:
@@ -135,6 +136,7 @@ func run(c *Case) []snapx.Problem {
 			cdone <- m.SN.(snapshots.Cleaner).Cleanup(context.Background())
 		}
 		<-cdone
+		m.ConcurrentCleanup = false
 		m.SetHook(nil)
 	}
 	problems = append(problems, m.Problems...)
